@@ -16,6 +16,7 @@ from .. import core, tlc, tlaval, dsdlio, records
 EXPS = [1, 4, 8, 16, 32, 63]
 ELEMS = {"bit": "bool", "byte": "uint8", "subbyte": "ns.Sub.1.0", "varcomp": "ns.VarComp.1.0", "u13": "uint13", "empty": "ns.Empty.1.0"}
 HANG_S = 180
+INTRINSIC_S = 25
 BUDGET = 40_000_000
 
 _PROBE = r'''
@@ -155,6 +156,32 @@ def probe_worker(e):
     out["e"] = e
     return out
 
+_INTRINSIC_PROBE = r'''
+import sys, time
+sys.path.insert(0, sys.argv[1]); sys.dont_write_bytecode = True
+import pydsdl
+t0 = time.time()
+types = pydsdl.read_namespace(sys.argv[2])
+print("ok %d %.3f" % (len(types), time.time() - t0))
+'''
+
+@core.safe
+def intrinsic_worker(arg):
+    """A definition that READS `_offset_` (the idiom `@assert _offset_ % 8 == {0}`) behind an array of 2**e elements."""
+    e, form = arg
+    cap = 2 ** e
+    body = {"assert-mod": "uint8[<=%d] data\n@assert _offset_ %% 8 == {0}\nuint8 tail\n@sealed\n" % cap,
+            "extent-max": "uint8[<=%d] data\n@extent _offset_.max * 2\n" % cap}[form]
+    with dsdlio.Tree({"ns/UsesOffset.1.0.dsdl": body}, "c16i") as tr:
+        t0 = time.time()
+        try:
+            p = subprocess.run([sys.executable, "-c", _INTRINSIC_PROBE, str(core.REPO), str(tr.path("ns"))], capture_output=True, text=True,
+                               env=dict(os.environ, PYTHONDONTWRITEBYTECODE="1"), timeout=INTRINSIC_S)
+            out = "ok" if p.returncode == 0 and p.stdout.startswith("ok") else "failed: " + (p.stderr.strip().splitlines() or ["?"])[-1][:200]
+        except subprocess.TimeoutExpired:
+            out = "did not finish within %d s" % INTRINSIC_S
+    return {"e": e, "form": form, "outcome": out, "wall": round(time.time() - t0, 2)}
+
 def signature(events):
     """What determines the enumeration work of an event sequence (the count itself is masked)."""
     sig = []
@@ -228,6 +255,16 @@ def run(ctx):
         elif signature(per_e[e2]["events"]) != signature(per_e[e1]["events"]) or per_e[e2]["ops"] != per_e[e1]["ops"]:
             ctx.note("solver work differs between capacity exponents %d and %d without growing (%d vs %d operations)"
                              % (e1, e2, per_e[e1]["ops"], per_e[e2]["ops"]))
+    # definitions that read the intrinsic `_offset_` behind a huge array (it is a SET in the expression language)
+    intr = core.pmap(intrinsic_worker, [(e, f) for e in (8, 16, 40) for f in ("assert-mod", "extent-max")], procs=6, chunksize=1)
+    ctx.extra["intrinsic_offset_probe"] = [r for r in intr if "harness_exception" not in r]
+    for r in intr:
+        if "harness_exception" in r:
+            raise tlc.MachineryError("intrinsic probe failed: %s" % r)
+        ctx.count()
+        if r["outcome"] != "ok":
+            ctx.violation({"kind": "cost-intrinsic", "intrinsic": "_offset_", "case": {"capacity_exponent": r["e"], "form": r["form"]},
+                           "diff": [("reading a definition that evaluates _offset_ behind an array of 2**%d elements" % r["e"], r["outcome"])]})
     ctx.sample({"capacity_exponents": exps, "ops_by_exponent": ctx.extra["ops_by_exponent"]})
 
 def replay(ctx, rec):
